@@ -196,6 +196,8 @@ impl Prop for C06 {
                     RowProg { cells, form, offers: vec![] }
                 })
                 .collect();
+            let mut rows = rows;
+            repeat_rows(g, &mut rows);
             sets.push((cols, rows));
         }
         Case { sets, announced: if g.coin() { Some(gen_client_announcements(g)) } else { None }, drop_writer: g.chance(1, 5) }
